@@ -151,6 +151,23 @@ example : ∃ dw, dw ∈ inp.deriveWheres ∧ ∃ v l,
         simp [this])
     cx wf.1 wf.2 tiOK (by intro h; cases h) _ _ vals.2 vals.1 (cloneOK _ _) (cloneOK _ _)
 
+theorem implsOK : ImplsOK it cx :=
+  ⟨fun a v h ha => by
+      have : v = a := by simpa [cx] using h.symm
+      exact this ▸ ha,
+   fun a b v h => by simp [cx] at h,
+   fun a v h => by simp [cx] at h⟩
+
+/-- `C02_preservation` applied to it: whatever the generated `partial_cmp` returns for `A(7)` and `C { x: 2 }` is an
+`Option<Ordering>`. -/
+example : ∀ dw ∈ inp.deriveWheres, ∀ t ∈ dw.traits, ∀ im ∈ generateImpl cfg inp dw t, ∀ m ∈ im.methods,
+    m.sig = .partialCmp → ∀ v l, runMethod cx m.body (.adt 0 [.leaf 7]) (some (.adt 2 [.leaf 2])) = .ok (v, l) →
+      ∃ o, v = .optOrd o := by
+  intro dw hdw t ht im him m hm hs v l hrun
+  have := C02_preservation cfg raw rawOK inp inp_ok dw hdw t ht cx implsOK im him m hm _ _ vals.1
+    (fun _ => ⟨_, rfl, vals.2⟩) v l hrun
+  simpa [hs, Sig.ret, ValOK] using this
+
 /-- `C02_well_typed` applied to it. -/
 example : ∀ dw ∈ inp.deriveWheres, ∀ t ∈ dw.traits, ∀ im ∈ generateImpl cfg inp dw t, ∀ m ∈ im.methods,
     m.wellTyped inp.item = true :=
